@@ -128,11 +128,11 @@ class Ctx:
         if len(self.samples) < limit:
             self.samples.append(jsonable(obj))
 
-    def dev(self, key, value, tol=None):
+    def dev(self, key, value, tol=None, where=None):
         value = float(value)
         cur = self.devs.get(key)
         if cur is None or value > cur[0] or cur[0] != cur[0]:
-            self.devs[key] = [value, tol if tol is None else float(tol)]
+            self.devs[key] = [value, tol if tol is None else float(tol), jsonable(where if where is not None else self._cur)]
 
     def note(self, text):
         if len(self.notes) < 50:
